@@ -689,7 +689,7 @@ func (g *schemaGen) object(depth int, allowAllOf bool) *S {
 		var v *S
 		switch {
 		case depth < 2 && g.r.Intn(6) == 0:
-			v = g.object(depth+1, false)
+			v = g.object(depth+1, allowAllOf)
 		case depth < 2 && g.r.Intn(6) == 0:
 			v = g.array(depth + 1)
 		default:
@@ -764,6 +764,12 @@ func (s *S) Features(into map[string]int) {
 	for _, p := range s.Props {
 		if p.Shortcut {
 			into["shortcut-key"]++
+		}
+		if p.V.K == "obj" && p.V.rule("allOf") != nil {
+			into["allOf-on-a-nested-object"]++
+			if s.rule("allOf") != nil {
+				into["allOf-on-an-object-inside-an-object-with-allOf"]++
+			}
 		}
 		p.V.Features(into)
 	}
